@@ -333,7 +333,7 @@ def attribute_errors(ws, errors):
             ln = s["line_start"] - 1
             did = None
             for i in range(min(ln, len(lines) - 1), -1, -1):
-                mm = re.match(r"pub mod (d\w+) \{", lines[i])
+                mm = re.match(r"pub mod (\w+) \{", lines[i])
                 if mm:
                     did = mm.group(1)
                     break
